@@ -173,6 +173,8 @@ def decode(j, gin=None):
     if 'd' in j:
       return {decode(k, gin): decode(v, gin) for k, v in j['d']}
     if 'set' in j:
+      if j.get('m'):    # a mutable set (only an API call can bind one; the parser has no literal for it)
+        return set(decode(x, gin) for x in j['set'])
       return frozenset(decode(x, gin) for x in j['set'])
     if 'o' in j:
       if j['o'] in ENUM_OPAQUES:
